@@ -101,27 +101,32 @@ impl<'a> SpannedDiagnosticFormatter<'a> {
     pub fn prefixed_underline_span_with_text(
         &self,
         prefix: &str,
-        mut span: Span,
+        span: Span,
         s: String,
         underline_c: char,
     ) -> String {
         let mut out = String::new();
         let (start_byte, end_byte) = self.nlc().span_line_bytes(span);
         // Produce an underline underneath a span which may cover multiple lines, and a message on the last line.
-        let mut source_lines = self.src[start_byte..end_byte].lines().peekable();
+        let mut source_lines = self.src[start_byte..end_byte].lines().collect::<Vec<_>>();
+        if source_lines.is_empty() {
+            // `lines()` yields nothing for an empty line, but we still have to show it (and the message).
+            source_lines.push("");
+        }
+        let mut line_start_byte = start_byte;
+        let mut source_lines = source_lines.into_iter().peekable();
         while let Some(source_line) = source_lines.next() {
-            let (line_start_byte, _) = self.nlc().span_line_bytes(span);
-            let span_offset_from_start = span.start() - line_start_byte;
-
-            // An underline bounded by the current line.
+            let line_end_byte = line_start_byte + source_line.len();
+            // An underline bounded by the current line (a span can start or end inside a line
+            // terminator, which is outside of `source_line`).
+            let underline_start = span.start().clamp(line_start_byte, line_end_byte);
             let underline_span = Span::new(
-                span.start(),
-                span.end()
-                    .min(span.start() + (source_line.len() - span_offset_from_start)),
+                underline_start,
+                span.end().clamp(underline_start, line_end_byte),
             );
-            let (line_num, _) = self
+            let line_num = self
                 .nlc()
-                .byte_to_line_num_and_col_num(self.src, span.start())
+                .byte_to_line_num(line_start_byte)
                 .expect("Span must correlate to a line in source");
             // Print the line_num/source text for the line.
             out.push_str(&format!("{}| {}\n", line_num, source_line));
@@ -147,9 +152,15 @@ impl<'a> SpannedDiagnosticFormatter<'a> {
                 // If we're at the end print the message.
                 out.push_str(&format!(" {}", s));
             } else {
-                // Otherwise set next span to start at the beginning of the next line.
+                // Otherwise continue at the beginning of the next line: the line terminator is
+                // one ("\n") or two ("\r\n") bytes long.
                 out.push('\n');
-                span = Span::new(line_start_byte + source_line.len() + 1, span.end())
+                let terminator_len = if self.src[line_end_byte..].starts_with("\r\n") {
+                    2
+                } else {
+                    1
+                };
+                line_start_byte = line_end_byte + terminator_len;
             }
         }
 
